@@ -1,4 +1,4 @@
-use libsodium_rs::{crypto_sign, random};
+use libsodium_rs::{crypto_core, crypto_sign, random};
 use paseto_core::PasetoError;
 use paseto_core::key::HasKey;
 use paseto_core::pae::pre_auth_encode;
@@ -10,9 +10,20 @@ impl HasKey<Public> for V4 {
     type Key = PublicKey;
 
     fn decode(bytes: &[u8]) -> Result<PublicKey, PasetoError> {
-        crypto_sign::PublicKey::from_bytes(bytes)
-            .map(PublicKey)
-            .map_err(|_| PasetoError::InvalidKey)
+        let key = crypto_sign::PublicKey::from_bytes(bytes).map_err(|_| PasetoError::InvalidKey)?;
+
+        // libsodium only checks the length. The bytes must also decompress to a point on
+        // the curve (as paseto-v4 requires): adding the identity fails exactly when they do not.
+        const IDENTITY: [u8; 32] = {
+            let mut id = [0; 32];
+            id[0] = 1;
+            id
+        };
+        if crypto_core::ed25519::add(bytes, &IDENTITY).is_err() {
+            return Err(PasetoError::InvalidKey);
+        }
+
+        Ok(PublicKey(key))
     }
     fn encode(key: &PublicKey) -> Box<[u8]> {
         key.0.as_bytes().to_vec().into_boxed_slice()
